@@ -136,7 +136,13 @@ class Engine(GenericConcreteEngine[Callable[..., Any]]):
                         # operation turned out to be a no-op there), its
                         # commutation may have replaced this operation (e.g. a
                         # Calculation made redundant by the new Projection).
-                        result = commutator.second._finish_apply(upstream)
+                        replacement = commutator.second
+                        if not done and not replacement.columns_required <= upstream.columns:
+                            # The commuted replacement relies on a column that
+                            # only the (not inserted) first operation would
+                            # have provided; keep the existing operation.
+                            replacement = tree.operation
+                        result = replacement._finish_apply(upstream)
                     else:
                         result = tree
                     return (
